@@ -12,3 +12,4 @@ pub mod c07;
 pub mod c07live;
 pub mod c17sctp;
 pub mod c19;
+pub mod dtls_attacker;
